@@ -46,6 +46,30 @@ PROPS = {
                    'theorems. Worker scheduling is not modelled (results are joined by slice index).',
         technique='Lean 4 proof (order theorems by omega, slicing by induction) + model/implementation correspondence',
     ),
+    'C08': dict(
+        areas=[('matcher', 600, 40000)],
+        rule='matcher area: histories of 4..14 requests served by the real Matcher.Loop sharing one chunk cache, pattern cache '
+             'and merger cache (query chains that extend / shrink / change case / add inverse, OR, exact and anchored terms; '
+             'sort toggles; a reload to a second input under a new major revision; loading progress to chunk boundaries and to '
+             'the size of the old input; inputs of 100..500 lines in which matching lines are rare enough for the per-chunk '
+             'cache to engage); two or three requests pending at once in both mailbox slots; searches while a loader goroutine '
+             'is pushing',
+        trusted=['sort.Sort', 'Go unicode tables', 'core.go / terminal.go glue that turns events into Reset calls is exercised '
+                 'by the interactive driver only'],
+        level_text='Lean 4 theorems: of any sequence of retry/reset requests posted while the matcher is busy, the next one '
+                   'served is the last one posted; the per-chunk query cache (exact hit, prefix/suffix narrowing, insertion) '
+                   'returns for every history of patterns exactly the chunk\'s items matching each pattern, for every pattern '
+                   'family satisfying key-determinacy and narrowing-monotonicity (proved for fuzzy and exact terms); the '
+                   'Loop\'s merger cache answers every final request with a scan of its own snapshot, pattern and sort flag. '
+                   'The models are tied to /repo by running the same histories through the real Matcher (the Lean model of '
+                   'the merger cache must reproduce every published list, including transient stale hits while loading).',
+        level_note='Partial: narrowing-monotonicity is proved per term under fixed case/normalisation flags, and checked per '
+                   'case for mixed flags; reader/terminal/coordinator timing is sampled by the interactive driver, not '
+                   'enumerated. Observation (outside the property: input still arriving): after a reload a non-final request '
+                   'at exactly the old input size can be answered from the merger cache of a smaller prefix.',
+        technique='Lean 4 proof (mailbox invariant, cache invariants by induction over histories) + model/implementation '
+                  'correspondence on request histories',
+    ),
     'C13': dict(
         areas=[('matcher', 300, 20000), ('rank', 3000, 300000)],
         procs=['race'],
